@@ -10,3 +10,48 @@ META = {
     "technique": 'Coq invariant proof + per-tick snapshot equality (model vs real pool vs task_pool table)',
     "design_ref": "5/C26",
 }
+
+
+# --- flow numbers of pooled tasks changed by command (`cylc set --flow=new|N ...`): the task_pool table is keyed by
+# (cycle, name, flow numbers), so a stale row would survive a merge; scenarios shared with the C08 `flowcmd` stream
+from vp.props.c08 import FlowCmdStream  # noqa: E402
+from vp.sched import oracles as _oracles  # noqa: E402
+
+
+class FlowDbStream(FlowCmdStream):
+    def __init__(self):
+        super().__init__(n_quick=20, n_thorough=300)
+        self.pid, self.name, self.cache_key, self.oracle_ids = "C26", "flowcmd-db", "sched-flowcmd-db:v1", ["C26"]
+        self.rule = ("the C08 `flowcmd` scenarios (2-4 `cylc set --flow=default/new/none/N --out=...` commands per run on the "
+                     "real Scheduler): after every main-loop iteration the task_pool table of the private database must list "
+                     "exactly the pooled proxies with their current flow numbers, status and held flag (oracle only: flow "
+                     "merges are not part of the pool automaton's C26 clauses)")
+
+    def impl(self, cases):
+        import os
+        from pathlib import Path
+        from vp.sched import driver
+        out = []
+        for c in cases:
+            r = driver.run_many([c], Path(os.environ["HOME"]))[0]
+            r["trace"] = [e for e in r["trace"] if e["e"] in ("tick_end", "started", "op")]
+            out.append(r)
+        return out
+
+    def coq_case(self, c, r):
+        return None
+
+    def oracle(self, c, r):
+        if r["meta"].get("error"):
+            return "scheduler run raised: " + r["meta"]["error"]
+        f = _oracles.c26(c, r)
+        return f"[C26] {f}" if f else None
+
+    def classify(self, c, r, failure):
+        return f"{self.name}:C26:{failure.split(']')[-1].strip()[:60]}"
+
+    def key(self, c, r):
+        return __import__("json").dumps([c["sections"], c.get("ops")], sort_keys=True)
+
+
+STREAMS.append(FlowDbStream())
